@@ -4,7 +4,7 @@ from ..areas import sched as S
 from ..areas import schedt as T
 
 
-class C03(S.SchedCheck):
+class C03(T.SeqCases, S.SchedCheck):
     pid = "C03"
     props_mod = "HioModel.Props.C03"
     design_ref = "DESIGN.md §5 C03, §7 F46"
@@ -21,8 +21,8 @@ class C03(S.SchedCheck):
                   "(non-interference: each doer's schedule is a function of its own script) and due_cumulative_first_cycle (no event while tyme < r + x, resumed in the FIRST cycle whose tyme "
                   ">= r + x).  Under LawfulTyme and 0 <= tock: asap_next_cycle (under the Doist and inside a tock-0 DoDoer), stays_due.  PARTIAL: for doers nested in tock-0 DoDoers (any depth) "
                   "the schedule equals the flat one under guard G04 = scripts positive* asap* (nested_schedule_partial, via the C04 simulation); due_cumulative_fails_nested is the decided "
-                  "witness of pre-finding F46 on the model, replayed on the real code in corpus() and recorded as known finding C03-K1.  That deque order is enter order is C02's invariant; "
-                  "for regrouped op-free programs it is part of the C04 simulation.")
+                  "witness of pre-finding F46 on the model, replayed on the real code in corpus() and recorded as known finding C03-K1.  cycle_runs_in_enter_order_partial composes the per-pass order with C02's invariant (FitsL): under the F03 guard (no entered leaf extends) "
+                  "the resumed ids of every cycle are a sublist of the run's enter events; cycle_order_fails_after_extend is the decided F03 witness.  LawfulTyme instances: Nat, Int, Rat.")
     level_note = ("Float is never given a LawfulTyme instance: that IEEE doubles satisfy the laws on the finite non-NaN values used is an assumption; "
                   "the correspondence runs at Float with non-dyadic tocks.  Real-time mode is C07.")
     profiles = ("time", "plain")
@@ -32,11 +32,14 @@ class C03(S.SchedCheck):
                    "IEEE-754 doubles satisfy LawfulTyme (a+0=a, <= reflexive/transitive/total, 0<=t -> a<=a+t, a<=b -> a+t<=b+t) on the finite non-NaN values used; no Lean instance is declared",
                    "DoDoers with tock > 0 and their members are outside the quantifier of C03: only order/once-per-cycle/tyme clauses are checked for them"]
     rule = ("op-free fault-free programs: own profiles flat/nested/hetero/f46/g04 (scripts positive* asap*, asap-then-positive, mixed; None and 0.0; tocks incl. 0.1 0.3 1/3 0.7; "
-            "starts incl. 0.3 100.1 7/3; limits incl. non-multiples and negative; random regroupings under tock-0 DoDoers incl. empty and nested) + profiles time/plain of the family. "
+            "starts incl. 0.3 100.1 7/3; limits incl. non-multiples and negative; random regroupings under tock-0 DoDoers incl. empty and nested) + profiles time/plain of the family; 30% of the cases are SECOND runs: the same doer objects were first run under another Doist (other start tyme, cut by a limit) and are then run under a fresh one. "
             "non-trivial = >= 10 recur events and some doer yields a positive tock; distinct by request line")
 
     def corpus(self):
-        return list(T.TIMING_CORPUS)
+        return list(T.TIMING_CORPUS) + self.seq_corpus(T.TIMING_CORPUS)
+
+    def request(self, case):
+        return S.request(self.base(case))
 
     def exhaustive(self, tier):
         if tier != "thorough":
@@ -55,24 +58,30 @@ class C03(S.SchedCheck):
         return cs, "every 3-step script over yields {0, None, 0.3, 1.0, 2.5} for one doer, flat and inside one tock-0 DoDoer, tocks {1, 0.3}, starts {0, 0.3}"
 
     def generate(self, rng, n, tier):
-        for _ in range(n):
-            k = rng.random()
-            if k < 0.2:
-                yield S.gen_case(rng, rng.choice(self.profiles))
-            else:
-                yield T.gen_timed(rng, rng.choice(["flat", "flat", "nested", "nested", "hetero", "f46", "g04", "g04"]))
+        def plain():
+            for _ in range(n):
+                k = rng.random()
+                if k < 0.2:
+                    yield S.gen_case(rng, rng.choice(self.profiles))
+                else:
+                    yield T.gen_timed(rng, rng.choice(["flat", "flat", "nested", "nested", "hetero", "f46", "g04", "g04"]))
+        return self.with_seq(rng, plain())
 
     def run_impl(self, case):
         T.settle_heap()
+        if case[0] == "seq":
+            return T.TObs(T.run_second(case[2], case[1]))
         return T.TObs(S.run_program(case))
 
     def nontrivial(self, case, obs):
+        case = self.base(case)
         d = obs.d
         pos = any(isinstance(o, tuple) and o[0] == "yield" and o[1] for s, _, _ in S.all_specs(case) if s[0] == "leaf" for _, o in s[4])
         return pos and sum(1 for e in d["trace"] if e[1] == "recur") >= 10
 
     def features(self, case, obs):
         f = super().features(case, obs)
+        case = self.base(case)
         _, tock, start, limit, pool, specs = case
         f.append("tock:" + ("dyadic" if float(tock) * 1024 == int(float(tock) * 1024) else "non-dyadic"))
         spec, par, pools, kids = S.spec_index(case)
@@ -85,7 +94,7 @@ class C03(S.SchedCheck):
         return f
 
     def oracle(self, case, obs):
-        return T.c03_analyse(case, obs.d)[0]
+        return T.c03_analyse(self.base(case), obs.d)[0]
 
     def known(self, case, obs, clauses):
         # C03-K1 (pre-finding F46): inside a tock-0 DoDoer the due tyme after an asap yield is the CURRENT tyme, so a positive tock that
@@ -93,6 +102,7 @@ class C03(S.SchedCheck):
         # satisfy the trigger, and the whole run must be exactly what that rule predicts.
         if clauses != ["resume-not-in-first-cycle-at-or-after-due"]:
             return None
+        case = self.base(case)
         cl, why = T.c03_analyse(case, obs.d)
         hit = set(T.g04_break_reached(case, obs.d, None, any_tock0_parent=True))
         if not why or not set(why) <= hit:
